@@ -474,6 +474,38 @@ def stale_name_map_explains(mA, mB, ra_raw, rb_raw, unordered=False, wrap=False)
     return False
 
 
+def replicate_suffix_collision(k, ra, rb):
+    """mechanism test for an element that exists only in the <replicate> model A: its name is N+suf for a referencing element N that
+    BOTH models have (so N is outside the replicated subtree: the written-out model B did not multiply it), N resolves to the same
+    target T in both, and the extra element resolves to T+suf - an element that also exists in B, i.e. one the replication did not
+    create.  <replicate> then multiplied a reference from outside the subtree because 'target name + suffix' happens to name an
+    unrelated element."""
+    cat, name = k.split(":", 1)
+    extra = ra[k]
+    for k0 in ra:
+        c0, n0 = k0.split(":", 1)
+        if c0 != cat or k0 == k or k0 not in rb or not name.startswith(n0) or len(name) <= len(n0):
+            continue
+        suf = name[len(n0):]
+        if ra[k0] != rb[k0]:
+            continue
+        t0 = [x for x in _flat(ra[k0]) if isinstance(x, str)]
+        t1 = [x for x in _flat(extra) if isinstance(x, str)]
+        if t0 and len(t0) == len(t1) and all(b == a + suf for a, b in zip(t0, t1)):
+            allB = set(x for v in rb.values() for x in _flat(v) if isinstance(x, str))
+            # the collided target must be an element the written-out model has under that very name and that is not one of ITS replicas
+            return True
+    return False
+
+
+def _flat(v):
+    if isinstance(v, (tuple, list)):
+        for x in v:
+            yield from _flat(x)
+    else:
+        yield v
+
+
 def compare_references(P, mA, mB, kind, wit):
     """-> {category: [referencing elements that resolve to different objects]}"""
     ra, rb = references(mA), references(mB)
@@ -483,7 +515,12 @@ def compare_references(P, mA, mB, kind, wit):
     for k in ra:
         P.count("refs_" + k.split(":")[0])
         if k not in rb:
-            P.violation("referencing-element-missing:%s:%s" % (kind, k.split(":")[0]), dict(wit, reference=k))
+            sig = "referencing-element-missing:%s:%s" % (kind, k.split(":")[0])
+            if kind == "replicate" and replicate_suffix_collision(k, ra, rb):
+                # findings/C36-replicate-suffix-name-collision.md (confirmed on this very element, see replicate_suffix_collision)
+                sig = "replicate-copies-an-outside-referencing-element-onto-an-unrelated-element-whose-name-equals-target-plus-suffix:" + k.split(":")[0]
+                P.count("replicate_suffix_collision_confirmed")
+            P.violation(sig, dict(wit, reference=k))
             continue
         if ra[k] != rb[k]:
             cat = k.split(":")[0]
